@@ -1,5 +1,5 @@
 (* Proofs about Algo/Modify.v (the model of bigtree/tree/modify.py) for property C08. *)
-From BT Require Import Base.Prelude Base.Str Base.StrSep Base.Rose Algo.Modify Spec.PC08.
+From BT Require Import Base.Prelude Base.Str Base.StrSep Base.Rose Algo.Modify Spec.PC08 Corr.ModifyCorr.
 
 (* ============================================================================================== *)
 (* Part 1.  One call with several pairs = the same single-pair calls in sequence.                  *)
@@ -5238,4 +5238,526 @@ Proof.
     intros k Hk. unfold minus_strict. apply has_filter_false.
     rewrite has_ensure_long; [apply Hkabs; exact Hk|]. unfold Q. rewrite app_length. cbn [length]. lia.
   - rewrite Hrows2. eapply subseq_trans; [|apply subseq_ins_all]. apply subseq_filter_mono. apply subseq_ensure.
+Qed.
+
+(* ============================================================================================== *)
+(* Part 19.  merge_children onto a destination node that already exists.                           *)
+
+(* the attach step of merge_children, for any destination node q that is not inside the source subtree *)
+Lemma mc_attach c t1 p q x PX Q :
+  c_copy c = false -> f_dc (c_fl c) = false -> wf_t t1 ->
+  p <> [] -> tget t1 p = Some x -> tpath t1 p = Some PX -> tpath t1 q = Some Q -> is_prefix p q = false ->
+  (forall k, In k (tkids x) -> has (rows t1) (Q ++ [tname k]) = false) ->
+  exists t2 y,
+    attach c true [t1] (0 :: p) (Some (0 :: q)) = ([t2; set_kids y []], None)
+    /\ rows t2 = minus (ins_all Q (tkids x) (minus_strict (rows t1) PX)) PX.
+Proof.
+  intros Hc Hdc Hwf1 Hp Hx1 HPX1 HQ1 Hpq Hkabs.
+  set (K := tkids x) in *. set (s := t_strip p t1).
+  assert (Hwfs : wf_t s) by (apply wf_t_set_kids, wf_fsetk_nil, wf_t_kids; exact Hwf1).
+  assert (HQs : tpath s q = Some Q).
+  { unfold tpath, s, t_strip. rewrite tname_set_kids, tkids_set_kids, fpath_fsetk by (left; exact Hpq). exact HQ1. }
+  assert (HPXs : tpath s p = Some PX).
+  { unfold tpath, s, t_strip. rewrite tname_set_kids, tkids_set_kids, fpath_fsetk by (right; reflexivity). exact HPX1. }
+  assert (Hrs : rows s = minus_strict (rows t1) PX) by (apply rows_t_strip; assumption).
+  assert (Hks : fkids p (tkids t1) = Some K).
+  { rewrite fkids_fget by exact Hp. unfold tget in Hx1. rewrite Hx1. reflexivity. }
+  assert (Hwfx : wf_t x) by (apply (wf_tget t1 p x Hwf1 Hx1)).
+  destruct (fkids_of_fpath _ _ _ _ HQs) as [kq Hkq].
+  assert (Hhas_s : forall k, In k K -> has (rows s) (Q ++ [tname k]) = false).
+  { intros k Hk. rewrite Hrs. unfold minus_strict. apply has_filter_false. apply Hkabs. exact Hk. }
+  assert (Hnd : NoDup (map tname kq ++ map tname K)).
+  { apply NoDup_app_intro.
+    - apply (wf_fkids q (tkids s) kq (wf_t_kids _ Hwfs) Hkq).
+    - apply (wf_t_kids _ Hwfx).
+    - intros n Hn1 Hn2. apply in_map_iff in Hn2 as [k [<- Hk]].
+      pose proof (Hhas_s k Hk) as Hh. rewrite (t_has_child s q Q kq (tname k) Hwfs HQs Hkq) in Hh.
+      apply in_map_iff in Hn1 as [k' [E Hk']].
+      assert (existsb (fun k0 => str_eqb (tname k0) (tname k)) kq = true)
+        by (eapply existsb_true; [exact Hk'|apply str_eqb_eq; exact E]). congruence. }
+  assert (Hqn : qnames q s = Some (map tname kq)) by (unfold qnames; rewrite Hkq; reflexivity).
+  assert (HKwf : Forall wf_t K) by (apply (wf_t_kids _ Hwfx)).
+  destruct (app_all_facts q Q K s (map tname kq) Hwfs HQs Hqn Hnd HKwf) as [Hwfn [Hrn Hfrn]].
+  set (sn := app_all q K s) in *.
+  assert (HPXn : tpath sn p = Some PX) by (apply Hfrn; exact HPXs).
+  destruct (fpath_fget _ _ _ _ Hp HPXn) as [y Hy].
+  exists (t_remove p sn), y. split.
+  - unfold attach. rewrite Hc. cbn [orb andb]. rewrite fkids_cons0, Hks, Hdc.
+    assert (Ht1 : t1 = t_setk p K s).
+    { unfold t_setk, s, t_strip. rewrite set_kids_set_kids, tkids_set_kids, fsetk_fsetk, (fsetk_id p _ _ Hks).
+      symmetry. apply set_kids_id. }
+    pose proof (mc_loop_spec (nroots c) [] p q Hp Hpq K s (child_refs (0 :: p) (length K)) (fun z => z) (map tname kq)
+                  (length_child_refs _ _)) as Hloop.
+    rewrite <- Ht1 in Hloop.
+    assert (Hloop' := Hloop (fun i c0 Hc0 => child_refs_nth _ _ _ _ Hc0) (ex_intro _ PX HPXs) (ex_intro _ Q HQs) Hqn Hnd).
+    fold (app_all q K s) in Hloop'. fold sn in Hloop'.
+    match goal with |- context [mc_loop ?a ?b ?c0 ?d ?e ?g ?h] =>
+      replace (mc_loop a b c0 d e g h) with ([t_setk p [] sn], @Ret ref (0 :: p)) by (symmetry; exact Hloop') end.
+    assert (Hgm : tget (t_setk p [] sn) p = Some (set_kids y [])).
+    { unfold tget, t_setk. rewrite tkids_set_kids. apply fget_fsetk_self. exact Hy. }
+    pose proof (detach_in_tree (nroots c) (t_setk p [] sn) [] p (set_kids y []) Hp Hgm) as Hm.
+    match goal with |- context [move ?a ?b ?c0 ?d] =>
+      replace (move a b c0 d) with
+        (MvOk ((t_remove p (t_setk p [] sn) :: []) ++ [set_kids y []]) (track (0 :: p) [1])) by (symmetry; exact Hm) end.
+    cbn [app]. f_equal. f_equal. unfold t_remove, t_setk. rewrite set_kids_set_kids, tkids_set_kids.
+    rewrite fremove_fsetk by exact Hp. reflexivity.
+  - rewrite (rows_t_remove sn p PX Hwfn Hp HPXn), Hrn, Hrs. reflexivity.
+Qed.
+
+Lemma t_has_path t q Q : tpath t q = Some Q -> has (rows t) Q = true.
+Proof.
+  intros HQ. destruct q as [|i q]; [|apply (t_has_row t (i :: q) Q ltac:(discriminate) HQ)].
+  unfold tpath in HQ. cbn in HQ. inversion HQ. apply has_root.
+Qed.
+
+(* DESIGN.md "C08_merge_children", destination PRESENT (merge_children without overriding): the children of the
+   source node are appended, in order and as the same objects, after the destination's own children; the
+   source node is detached; the destination node and everything else keep row, tag and order (subseq). *)
+Theorem C08_merge_children_existing_stmt sep tsep fl t p d x PX PD :
+  f_mc fl = true -> f_over fl = false -> f_dc fl = false -> wf_t t ->
+  p <> [] -> tget t p = Some x -> tpath t p = Some PX -> tpath t d = Some PD ->
+  pfx PX PD = false -> last PD [] = tname x ->
+  (forall k, In k (tkids x) -> has (rows t) (PD ++ [tname k]) = false) ->
+  exists t2 rest,
+    cs_core (cfg_same false sep tsep fl) [t] (0 :: p) (TNode (0 :: d)) = (t2 :: rest, None)
+    /\ rows t2 = minus (ins_all PD (tkids x) (minus_strict (rows t) PX)) PX
+    /\ edit_cs false true fl (rows t) (rows t) PX (Some PD) = PNext (rows t2) (rows t2)
+    /\ subseq (minus (rows t) PX) (rows t2).
+Proof.
+  intros Hmc Hov Hdc Hwf Hp Hx HPX HPD Hnotin Hlast Hkabs.
+  set (c := cfg_same false sep tsep fl).
+  assert (Hpd : is_prefix p d = false) by (eapply not_pfx_not_prefix; eassumption).
+  destruct (mc_attach c t p d x PX PD eq_refl Hdc Hwf Hp Hx HPX HPD Hpd Hkabs) as [t2 [y [Hatt Hrows2]]].
+  exists t2, [set_kids y []]. split; [|split; [exact Hrows2|split]].
+  - unfold cs_core.
+    replace (ref_eqb (0 :: p) (0 :: d)) with false.
+    2: { symmetry. unfold ref_eqb. cbn [list_eqb Nat.eqb andb]. destruct (list_eqb Nat.eqb p d) eqn:E; [|reflexivity].
+         assert (p = d).
+         { clear -E. revert d E. induction p as [|a p IH]; intros [|b d] E; cbn in E; try discriminate; [reflexivity|].
+           apply andb_true_iff in E as [E1 E2]. apply Nat.eqb_eq in E1. subst. f_equal. apply IH. exact E2. }
+         subst. rewrite is_prefix_refl in Hpd. discriminate. }
+    change (f_mc (c_fl c)) with (f_mc fl). change (f_over (c_fl c)) with (f_over fl). rewrite Hmc, Hov. cbn [negb].
+    exact Hatt.
+  - rewrite Hrows2.
+    destruct (t_sub_rows t p x PX Hwf Hp Hx HPX) as [P0 [HP0 Hsub]].
+    destruct (tpath_ext _ _ _ HPX) as [rest0 [HPe Hl]].
+    assert (Hk2 : Nat.eqb (length PX) 1 = false).
+    { apply Nat.eqb_neq. rewrite HPe. cbn [length]. destruct p; [congruence|cbn in Hl; lia]. }
+    assert (Hwfx : wf_t x) by (apply (wf_tget t p x Hwf Hx)).
+    unfold edit_cs. rewrite Hk2. cbn [negb andb].
+    rewrite HP0 at 1. rewrite last_last, Hlast, str_eqb_refl. cbn [negb].
+    replace (path_eqb PD PX) with false.
+    2: { symmetry. destruct (path_eqb PD PX) eqn:E; [|reflexivity]. apply path_eqb_eq in E.
+         rewrite E, pfx_refl in Hnotin. discriminate. }
+    rewrite Hnotin. cbn [andb]. rewrite (t_has_path t d PD HPD). rewrite Hmc, Hov, Hdc. cbn [negb andb].
+    rewrite (t_child_rows t p x PX Hwf Hp Hx HPX), map_map. cbn [rpath fst].
+    rewrite (map_ext_in _ (fun k => (S (length PX), rows_from PX k))).
+    2: { intros k Hk. f_equal. apply (t_sub_rows_child t p x PX k Hwf Hp Hx HPX Hk). }
+    rewrite (attach_items_children PD (length PX) (tkids x) _) with (PX := PX);
+      [reflexivity| |apply (wf_t_kids _ Hwfx)|reflexivity].
+    intros k Hk. unfold minus_strict. apply has_filter_false. apply Hkabs. exact Hk.
+  - rewrite Hrows2. rewrite <- (minus_minus_strict (rows t) PX). apply subseq_filter_mono. apply subseq_ins_all.
+Qed.
+
+(* ============================================================================================== *)
+(* Part 20.  Copies are made of new objects.                                                        *)
+
+Lemma rows_retag_fresh x : forall P r, In r (rows_from P (retag x)) -> rtag r = None.
+Proof.
+  induction x as [g n a ks IH] using tree_ind'. intros P r Hr. cbn [retag rows_from] in Hr.
+  destruct Hr as [<-|Hr]; [reflexivity|]. apply in_flat_map in Hr as [k' [Hk' Hr]].
+  apply in_map_iff in Hk' as [k [<- Hk]]. rewrite Forall_forall in IH. eapply IH; eassumption.
+Qed.
+
+Lemma rows_retag_same x : forall P,
+  map (fun r => (rpath r, rattrs r)) (rows_from P (retag x)) = map (fun r => (rpath r, rattrs r)) (rows_from P x).
+Proof.
+  induction x as [g n a ks IH] using tree_ind'. intros P. cbn [retag rows_from map rpath rattrs fst snd]. f_equal.
+  rewrite !flat_map_concat_map, !concat_map, !map_map. f_equal.
+  apply map_ext_in. intros k Hk. rewrite Forall_forall in IH. apply IH. exact Hk.
+Qed.
+
+(* ============================================================================================== *)
+(* Part 21.  The predicate the check evaluates on the implementation's output, prop_C08, holds of the   *)
+(* model's own output — for the family of calls of C08_shift_whole_call_multi.                    *)
+
+Definition obs_ok (t : tree) : Prop :=
+  forall e pre, length pre = e -> forall cur, firstn e cur = pre ->
+  exists cur', firstn e cur' = pre /\
+    forall rest, table_of_obs cur (flatten (S e) t ++ rest) = rows_from pre t ++ table_of_obs cur' rest.
+
+Lemma obs_forest_of (ks : list tree) : Forall obs_ok ks ->
+  forall e pre, length pre = e -> forall cur, firstn e cur = pre ->
+  exists cur', firstn e cur' = pre /\
+    forall rest, table_of_obs cur (flat_map (flatten (S e)) ks ++ rest) = frows pre ks ++ table_of_obs cur' rest.
+Proof.
+  induction ks as [|t ks IH]; intros Hall e pre Hlen cur Hcur.
+  - exists cur. split; [exact Hcur|]. intros rest. reflexivity.
+  - inversion Hall as [|? ? Ht Hks]; subst.
+    destruct (Ht _ pre eq_refl cur Hcur) as [c1 [Hc1 H1]].
+    destruct (IH Hks _ pre eq_refl c1 Hc1) as [c2 [Hc2 H2]].
+    exists c2. split; [exact Hc2|]. intros rest. cbn [flat_map]. rewrite <- app_assoc, H1, H2, frows_cons, <- app_assoc.
+    reflexivity.
+Qed.
+
+Lemma obs_tree t : obs_ok t.
+Proof.
+  induction t as [g n a kk IH] using tree_ind'. intros e pre Hlen cur Hcur.
+  assert (Hp : firstn (S e) (pre ++ [n]) = pre ++ [n]).
+  { apply firstn_all2. rewrite app_length. cbn. lia. }
+  destruct (obs_forest_of kk IH (S e) (pre ++ [n]) ltac:(rewrite app_length; cbn; lia) (pre ++ [n]) Hp) as [c1 [Hc1 H1]].
+  assert (Hc1' : firstn e c1 = pre).
+  { assert (E : firstn e c1 = firstn e (firstn (S e) c1)) by (rewrite firstn_firstn; f_equal; lia).
+    rewrite E, Hc1, firstn_app, Hlen, Nat.sub_diag. cbn [firstn]. rewrite app_nil_r.
+    apply firstn_all2. lia. }
+  exists c1. split; [exact Hc1'|]. intros rest.
+  cbn [flatten app table_of_obs Nat.sub]. rewrite Nat.sub_0_r, Hcur. cbn [rows_from app]. f_equal. apply H1.
+Qed.
+
+Lemma table_of_obs_flatten t : table_of_obs [] (flatten 1 t) = rows t.
+Proof.
+  destruct (obs_tree t 0 [] eq_refl [] eq_refl) as [c [_ H]]. specialize (H []).
+  rewrite !app_nil_r in H. exact H.
+Qed.
+
+Lemma val_eqb_refl v : val_eqb v v = true.
+Proof. destruct v; cbn; [reflexivity|apply Z.eqb_refl|apply str_eqb_refl|destruct b; reflexivity|apply Z.eqb_refl]. Qed.
+
+Lemma attrs_eqb_refl a : attrs_eqb a a = true.
+Proof. induction a as [|[k v] a IH]; cbn; [reflexivity|]. rewrite str_eqb_refl, val_eqb_refl, IH. reflexivity. Qed.
+
+Lemma row_eqb_refl r : row_eqb r r = true.
+Proof.
+  unfold row_eqb. rewrite path_eqb_refl, attrs_eqb_refl. destruct (rtag r); cbn; [rewrite Nat.eqb_refl|]; reflexivity.
+Qed.
+
+Lemma table_eqb_refl tb : table_eqb tb tb = true.
+Proof. unfold table_eqb. induction tb as [|r tb IH]; cbn; [reflexivity|]. rewrite row_eqb_refl. exact IH. Qed.
+
+Lemma startswith_hd_false y t sp : sp <> [] -> ~ In y sp -> startswith (y :: t) sp = false.
+Proof.
+  intros Hsp Hy. destruct sp as [|b sp]; [congruence|]. cbn [startswith].
+  replace (N.eqb b y) with false; [reflexivity|]. symmetry. apply N.eqb_neq. intros ->. apply Hy. left. reflexivity.
+Qed.
+
+Lemma contains_sfree sp : sp <> [] -> forall w, sfree sp w -> contains w sp = false.
+Proof.
+  intros Hsp. induction w as [|y w IH]; intros Hf.
+  - cbn. destruct sp; [congruence|reflexivity].
+  - cbn [contains]. apply sfree_cons in Hf as [Hy Hw]. rewrite (startswith_hd_false y w sp Hsp Hy). cbn [orb].
+    apply IH. exact Hw.
+Qed.
+
+Lemma join_split_hd sp (L : list str) : L <> [] -> exists rest, join sp L = hd [] L ++ rest.
+Proof.
+  intros H. destruct L as [|w ws]; [congruence|]. destruct ws; [exists []; cbn; rewrite app_nil_r; reflexivity|].
+  rewrite join_cons2. eexists. reflexivity.
+Qed.
+
+Lemma join_split_last sp : forall (L : list str), L <> [] -> exists pre, join sp L = pre ++ last L [].
+Proof.
+  induction L as [|w ws IH]; intros H; [congruence|]. destruct ws as [|w' ws]; [exists []; reflexivity|].
+  destruct (IH ltac:(discriminate)) as [pre Hpre]. rewrite join_cons2, Hpre.
+  exists (w ++ sp ++ pre). rewrite <- !app_assoc. reflexivity.
+Qed.
+
+Lemma startswith_good_false sp x rest : sp <> [] -> sgood sp x -> startswith (x ++ rest) sp = false.
+Proof.
+  intros Hsp [Hx Hf]. destruct x as [|y x]; [congruence|]. cbn [app]. apply startswith_hd_false; [exact Hsp|].
+  intros Hin. apply (Hf y Hin). left. reflexivity.
+Qed.
+
+Lemma endswith_good_false sp pre x : sp <> [] -> sgood sp x -> endswith (pre ++ x) sp = false.
+Proof.
+  intros Hsp [Hx Hf]. unfold endswith. rewrite rev_app_distr.
+  assert (G : sgood (rev sp) (rev x)).
+  { split.
+    - intros E. apply (f_equal (@rev N)) in E. rewrite rev_involutive in E. contradiction.
+    - intros ch Hch Hin. apply in_rev in Hch. apply in_rev in Hin. exact (Hf ch Hch Hin). }
+  apply startswith_good_false; [|exact G].
+  intros E. apply (f_equal (@rev N)) in E. rewrite rev_involutive in E. contradiction.
+Qed.
+
+Lemma Forall_hd_last {A} (P : A -> Prop) (L : list A) d : L <> [] -> Forall P L -> P (hd d L) /\ P (last L d).
+Proof.
+  intros Hne Hf. rewrite Forall_forall in Hf. split; apply Hf.
+  - destruct L; [congruence|left; reflexivity].
+  - destruct L as [|x L] using rev_ind; [congruence|]. rewrite last_last. apply in_or_app. right. left. reflexivity.
+Qed.
+
+(* Spec.parse on a well-formed path string *)
+Lemma parse_join a sp' L :
+  let sp := a :: sp' in
+  L <> [] -> Forall (sgood sp) L -> parse [sp; sp; sp] sp (join sp L) = Some (PQ false L).
+Proof.
+  intros sp Hne Hf. unfold parse.
+  destruct (Forall_hd_last _ L [] Hne Hf) as [Hh Hl].
+  destruct (join_split_hd sp L Hne) as [rest Hjh]. destruct (join_split_last sp L Hne) as [pre Hjl].
+  assert (Hs : startswith (join sp L) sp = false) by (rewrite Hjh; apply startswith_good_false; [discriminate|exact Hh]).
+  rewrite Hs.
+  assert (He : endswith (join sp L) sp = false) by (rewrite Hjl; apply endswith_good_false; [discriminate|exact Hl]).
+  rewrite He. unfold sp. rewrite split_join_m by assumption.
+  replace (forallb _ L) with true; [reflexivity|]. symmetry. apply forallb_forall. intros w Hw.
+  rewrite Forall_forall in Hf. destruct (Hf w Hw) as [Hw1 Hw2].
+  pose proof (contains_sfree sp ltac:(discriminate) _ Hw2) as Hc.
+  destruct w; [congruence|]. cbn [is_empty negb andb forallb]. fold sp. rewrite Hc. reflexivity.
+Qed.
+
+(* DESIGN.md section 2: prop_Cxx (model input) = true.  Here for the family of C08_shift_whole_call_multi: the
+   predicate that check_C08 evaluates on the implementation's output accepts the model's output. *)
+Theorem C08_model_satisfies_prop_shift_stmt (a : N) (sp' : str) sk t p x comps PX :
+  let sep := a :: sp' in
+  let fl := MF sk false false false false true in
+  let Q := tname t :: comps in
+  wf_t t -> p <> [] -> tget t p = Some x -> tpath t p = Some PX ->
+  Forall (sgood (a :: sp')) PX -> Forall (sgood (a :: sp')) Q ->
+  pfx PX Q = false -> has (rows t) (Q ++ [tname x]) = false ->
+  let i := MI OpShift fl sep t sep (T None [] [] []) sep [join sep PX] [Some (join sep (Q ++ [tname x]))] in
+  trees_ok i = true ->
+  prop_C08 i (obs_of i (run i)) None = true.
+Proof.
+  intros sep fl Q Hwf Hp Hx HPX HfX HfQ Hnotin Habs i Hok. subst sep.
+  destruct (C08_shift_whole_call_multi_stmt a sp' sk t p x comps PX Hwf Hp Hx HPX HfX HfQ Hnotin Habs)
+    as [_ [t2 [Hrun [Hrows Hedit]]]].
+  fold fl in Hedit. fold Q in Hedit, Hrows. fold i in Hrun.
+  destruct (t_sub_rows t p x PX Hwf Hp Hx HPX) as [P0 [HP0 _]].
+  destruct (tpath_ext _ _ _ HPX) as [restp [HPe _]].
+  assert (Hsx : sgood (a :: sp') (tname x)).
+  { rewrite HP0 in HfX. apply Forall_app in HfX as [_ H]. inversion H; assumption. }
+  assert (HfT : Forall (sgood (a :: sp')) (Q ++ [tname x])) by (apply Forall_app; split; [exact HfQ|constructor; [exact Hsx|constructor]]).
+  assert (HneX : PX <> []) by (rewrite HPe; discriminate).
+  assert (HneT : Q ++ [tname x] <> []) by (destruct Q; discriminate).
+  assert (Htpne : join (a :: sp') (Q ++ [tname x]) <> []) by (apply join_nonempty_m; assumption).
+  unfold prop_C08.
+  assert (Hspec : spec_call i (mi_from i) (mi_to i) = (true, SDone (rows t2) (rows t2) None)).
+  { unfold spec_call. rewrite Hok. cbn [negb]. change (mi_fl i) with fl. change (mi_op i) with OpShift.
+    cbn [is_replace is_tt is_copy negb andb f_mc f_ml fl]. change (mi_from i) with [join (a :: sp') PX].
+    change (mi_to i) with [Some (join (a :: sp') (Q ++ [tname x]))].
+    cbn [length Nat.eqb negb existsb map]. change (mi_sep i) with (a :: sp'). change (mi_ssep i) with (a :: sp').
+    change (mi_dsep i) with (a :: sp'). change (mi_src i) with t.
+    match goal with |- context [parse ?s1 ?s2 (join ?s3 PX)] =>
+      replace (parse s1 s2 (join s3 PX)) with (Some (PQ false PX)) by (symmetry; exact (parse_join a sp' PX HneX HfX)) end.
+    unfold parse_to. rewrite truthy_some by exact Htpne.
+    match goal with |- context [parse ?s1 ?s2 (join ?s3 (Q ++ [tname x]))] =>
+      replace (parse s1 s2 (join s3 (Q ++ [tname x]))) with (Some (PQ false (Q ++ [tname x])))
+        by (symmetry; exact (parse_join a sp' (Q ++ [tname x]) HneT HfT)) end. cbn [all_some combine existsb fst snd q_comps].
+    rewrite last_last. rewrite HP0 at 1. rewrite last_last, str_eqb_refl. cbn [negb orb andb f_full].
+    rewrite HPe at 1. unfold Q at 1. cbn [hd app]. rewrite !str_eqb_refl. cbn [negb orb andb].
+    cbn [fold_pairs]. unfold resolve_step. change (mi_fl i) with fl. change (mi_op i) with OpShift.
+    cbn [is_replace is_tt is_copy negb f_full fl]. unfold candidates. cbn [q_comps].
+    rewrite (t_row_at t p x PX Hwf Hp Hx HPX). cbn [rpath fst option_map q_comps].
+    rewrite Hedit. reflexivity. }
+  assert (Hrun' : run i = ([t2], None)) by exact Hrun.
+  rewrite Hspec. unfold obs_of, matches. rewrite Hrun'. cbn [fst snd code_of o_code o_src Nat.eqb piece nth].
+  change (mi_op i) with OpShift. cbn [is_tt negb orb andb].
+  rewrite table_of_obs_flatten, table_eqb_refl. reflexivity.
+Qed.
+
+(* a refused family, for ALL trees, paths, separators and the remaining flags: merge_children together with
+   merge_leaves is ValueError and nothing changes — the model's output satisfies prop_C08 *)
+Theorem C08_model_satisfies_prop_both_merges_stmt i :
+  is_replace (mi_op i) = false -> f_mc (mi_fl i) = true -> f_ml (mi_fl i) = true ->
+  prop_C08 i (obs_of i (run i)) None = true.
+Proof.
+  intros Hr Hmc Hml. unfold prop_C08, spec_call. destruct (trees_ok i) eqn:Hok; [|reflexivity].
+  cbn [negb]. rewrite Hr, Hmc, Hml. cbn [negb andb]. unfold matches.
+  assert (Hseps : seps_ok (cfg_of i) = true).
+  { unfold trees_ok in Hok. apply andb_true_iff in Hok as [Hok _]. apply andb_true_iff in Hok as [Hok _].
+    apply andb_true_iff in Hok as [Hok _]. cbn [forallb] in Hok. unfold seps_ok, cfg_of. cbn [c_sep c_ssep c_dsep].
+    apply andb_true_iff in Hok as [H1 Hok]. apply andb_true_iff in Hok as [H2 Hok]. apply andb_true_iff in Hok as [H3 _].
+    rewrite H1, H2. cbn [andb]. destruct (is_tt (mi_op i)); [exact H3|exact H2]. }
+  assert (Hrun : run i = (init_forest i, Some ValueError)).
+  { unfold run, run_from. rewrite Hr. unfold copy_or_shift_logic. rewrite (seps_ok_no_refusal false _ _ _ Hseps).
+    unfold cs_validate. unfold cfg_of at 1 2. rewrite Hr. cbn [c_fl]. rewrite Hmc, Hml. reflexivity. }
+  unfold obs_of. rewrite Hrun. cbn [fst snd code_of o_code o_src o_dst]. rewrite Nat.eqb_refl. cbn [andb].
+  unfold init_forest. destruct (is_tt (mi_op i)); cbn [piece nth negb orb andb];
+    rewrite !table_of_obs_flatten, !table_eqb_refl; reflexivity.
+Qed.
+
+(* ============================================================================================== *)
+(* Part 22.  shift_and_replace_nodes with a source node from an unrelated branch: neither below the   *)
+(* replaced node's parent nor an ancestor of it.                                                   *)
+
+Lemma fget_fsetk_other par : forall p (f : forest) K,
+  is_prefix par p = false -> is_prefix p par = false -> fget p (fsetk par K f) = fget p f.
+Proof.
+  induction par as [|i par IH]; intros p f K H1 H2; [discriminate|].
+  destruct p as [|j p]; [discriminate|]. rewrite is_prefix_cons in H1, H2. cbn [fsetk fget].
+  rewrite nth_error_upd_nth. destruct (Nat.eqb j i) eqn:E; [|reflexivity].
+  apply Nat.eqb_eq in E. subst j. rewrite Nat.eqb_refl in H1. cbn [andb] in H1, H2.
+  destruct (nth_error f i) as [t|]; [|reflexivity]. cbn [option_map].
+  destruct p as [|j' p']; [discriminate|]. rewrite tkids_set_kids. apply IH; assumption.
+Qed.
+
+Lemma adj'_app x : forall z r, is_prefix x z = false -> is_prefix z x = false -> adj' x (z ++ r) = adj' x z ++ r.
+Proof.
+  induction x as [|i x IH]; intros z r H1 H2; [discriminate|].
+  destruct z as [|j z]; [discriminate|]. rewrite is_prefix_cons in H1, H2. unfold adj'. cbn [app adj].
+  destruct x as [|k x].
+  - destruct (Nat.eqb j i) eqn:E.
+    + rewrite Nat.eqb_sym, E in H1. cbn in H1. discriminate.
+    + reflexivity.
+  - destruct (Nat.eqb j i) eqn:E; [|reflexivity].
+    rewrite Nat.eqb_sym, E in H1. cbn [andb] in H1, H2.
+    specialize (IH z r H1 H2). unfold adj' in IH.
+    destruct (adj (k :: x) z) as [w|] eqn:Ez.
+    + destruct (adj (k :: x) (z ++ r)) as [w'|] eqn:Ezr; cbn [option_map app]; rewrite IH; reflexivity.
+    + apply adj_none in Ez; [congruence|discriminate].
+Qed.
+
+Lemma is_prefix_snoc_false p par k : is_prefix p par = false -> is_prefix par p = false -> is_prefix p (par ++ [k]) = false.
+Proof.
+  intros H1 H2. destruct (is_prefix p (par ++ [k])) eqn:E; [|reflexivity].
+  apply is_prefix_iff in E as [r Hr]. destruct r as [|b r] using rev_ind.
+  - rewrite app_nil_r in Hr. rewrite <- Hr, is_prefix_app in H2. discriminate.
+  - rewrite app_assoc in Hr. apply app_inj_tail in Hr as [Hr _]. rewrite Hr, is_prefix_app in H1. discriminate.
+Qed.
+
+Lemma fsetk_after_fappend q : forall (f : forest) ks k, fsetk q ks (fappend q k f) = fsetk q ks f.
+Proof.
+  induction q as [|i q IH]; intros f ks k; [reflexivity|]. cbn [fsetk fappend]. rewrite upd_nth_upd_nth.
+  apply upd_nth_ext. intros t. rewrite set_kids_set_kids, tkids_set_kids, IH. reflexivity.
+Qed.
+
+(* DESIGN.md "C08_replace_position", source from an unrelated branch.  par: reference of D's parent (children
+   L ++ D :: R), p: reference of the source node F.  Result: D and F removed from where they were, F put
+   between L and R. *)
+Theorem replace_unrelated c t par p L D R x :
+  plain_replace c -> (exists P, tpath t par = Some P) -> par <> [] -> p <> [] ->
+  fkids par (tkids t) = Some (L ++ D :: R) -> NoDup (map tname (L ++ D :: R)) ->
+  tget t p = Some x -> is_prefix par p = false -> is_prefix p par = false ->
+  (forall k, In k (L ++ R) -> tname k <> tname x) ->
+  (exists rest,
+    rp_core c [t] (0 :: p) (0 :: par ++ [length L])
+    = (t_setk (adj' p par) (L ++ x :: R) (t_remove p (t_remove (par ++ [length L]) t)) :: rest, None))
+  /\ tpath (t_remove p (t_remove (par ++ [length L]) t)) (adj' p par) = tpath t par
+  /\ fkids (adj' p par) (tkids (t_remove p (t_remove (par ++ [length L]) t))) = Some (L ++ R)
+  /\ tget (t_remove (par ++ [length L]) t) p = Some x.
+Proof.
+  intros Hpr [P HP] Hpar Hp Hks Hnd Hx Hpp1 Hpp2 Hfresh.
+  assert (Hmain : exists rest,
+    rp_core c [t] (0 :: p) (0 :: par ++ [length L])
+    = (t_setk (adj' p par) (L ++ x :: R) (t_remove p (t_remove (par ++ [length L]) t)) :: rest, None)
+    /\ tpath (t_remove p (t_remove (par ++ [length L]) t)) (adj' p par) = tpath t par
+    /\ fkids (adj' p par) (tkids (t_remove p (t_remove (par ++ [length L]) t))) = Some (L ++ R)
+    /\ tget (t_remove (par ++ [length L]) t) p = Some x);
+  [|destruct Hmain as [rest [H1 [H2 [H3 H4]]]]; split; [exists rest; exact H1|split; [exact H2|split; [exact H3|exact H4]]]]. set (i := length L). set (nr := nroots c).
+  assert (Hpd : is_prefix (par ++ [i]) p = false) by (apply is_prefix_child_false; left; exact Hpp1).
+  assert (Hne_ref : ref_eqb (0 :: p) (0 :: par ++ [i]) = false).
+  { destruct (ref_eqb (0 :: p) (0 :: par ++ [i])) eqn:E; [|reflexivity].
+    assert (0 :: p = 0 :: par ++ [i]).
+    { unfold ref_eqb in E. revert E. generalize (0 :: p) (0 :: par ++ [i]).
+      induction l as [|a l IH]; intros [|b l'] E; cbn in E; try discriminate; [reflexivity|].
+      apply andb_true_iff in E as [E1 E2]. apply Nat.eqb_eq in E1. subst. f_equal. apply IH. exact E2. }
+    inversion H as [H1]. rewrite H1, is_prefix_app in Hpp1. discriminate. }
+  rewrite (rp_core_unfold c t p par i _ Hpr Hne_ref Hks).
+  assert (Hlen : length (L ++ D :: R) - i = S (length R)) by (unfold i; lens; lia).
+  rewrite Hlen. cbn [seq map rp_loop].
+  assert (Ht : t = t_setk par (L ++ D :: R) t) by (symmetry; apply t_setk_id; exact Hks).
+  (* D.parent = None *)
+  assert (HgD : tget t (par ++ [i]) = Some D).
+  { unfold tget. eapply fget_snoc; [exact Hks|]. unfold i. apply nth_error_mid. }
+  pose proof (detach_in_tree nr t [] (par ++ [i]) D ltac:(destruct par; discriminate) HgD) as Hm1.
+  change ((0 :: par) ++ [i]) with (0 :: par ++ [i]).
+  match goal with |- context [move ?x1 ?x2 ?x3 None] =>
+    replace (move x1 x2 x3 None) with (MvOk ((t_remove (par ++ [i]) t :: []) ++ [D]) (track (0 :: par ++ [i]) [1]))
+      by (symmetry; exact Hm1) end.
+  cbn [app]. cbn beta iota.
+  assert (Hta : t_remove (par ++ [i]) t = t_setk par (L ++ R) t).
+  { rewrite Ht at 1. unfold t_remove, t_setk. rewrite set_kids_set_kids, tkids_set_kids, fremove_fsetk_child.
+    unfold i. rewrite del_nth_mid. reflexivity. }
+  set (ta := t_remove (par ++ [i]) t) in *.
+  set (tk1 := track (0 :: par ++ [i]) [1]).
+  assert (Htk1p : tk1 (0 :: p) = 0 :: p).
+  { unfold tk1. change (0 :: par ++ [i]) with (0 :: (par ++ [i])).
+    rewrite track_cons0; [|destruct par; discriminate|exact Hpd].
+    rewrite adj'_child_removed by (left; exact Hpp1). reflexivity. }
+  assert (Htk1par : tk1 (0 :: par) = 0 :: par) by apply track_parent0.
+  rewrite Htk1p, Htk1par.
+  (* F.parent = D's parent *)
+  assert (Hxa : tget ta p = Some x).
+  { rewrite Hta. unfold tget, t_setk. rewrite tkids_set_kids, fget_fsetk_other by assumption. exact Hx. }
+  assert (HPa : tpath ta par = Some P).
+  { rewrite Hta. unfold tpath, t_setk. rewrite tname_set_kids, tkids_set_kids, fpath_fsetk by (right; reflexivity). exact HP. }
+  assert (Hka : fkids par (tkids ta) = Some (L ++ R)).
+  { rewrite Hta. unfold t_setk. rewrite tkids_set_kids. eapply fkids_fsetk_self. exact HP. }
+  destruct (move_in_tree' nr ta [D] p par x (L ++ R) Hp Hxa Hpp2 Hka Hfresh (ex_intro _ P HPa)) as [n Hm2].
+  match goal with |- context [move ?x1 ?x2 ?x3 ?x4] =>
+    replace (move x1 x2 x3 x4) with
+      (MvOk (t_move p par x ta :: [D]) (track (0 :: p) ((0 :: adj' p par) ++ [n]))) by (symmetry; exact Hm2) end.
+  cbn beta iota. set (par' := adj' p par). set (tk2 := track (0 :: p) ((0 :: par') ++ [n])).
+  assert (Htk2par : tk2 (0 :: par) = 0 :: par') by (unfold tk2; apply track_cons0; assumption).
+  rewrite Htk2par.
+  set (U := t_remove p ta).
+  assert (HPU : tpath U par' = Some P).
+  { unfold tpath, U, t_remove. rewrite tname_set_kids, tkids_set_kids. unfold par'. unfold tget in Hxa.
+    rewrite (fpath_adj _ _ _ _ _ Hxa Hpp2). exact HPa. }
+  assert (Hpar' : par' <> []) by (apply adj'_nonempty; exact Hpar).
+  assert (HkU : fkids par' (tkids U) = Some (L ++ R)).
+  { rewrite fkids_fget by exact Hpar'. unfold U, t_remove. rewrite tkids_set_kids. unfold par'. unfold tget in Hxa.
+    rewrite (fget_adj _ _ _ _ Hxa Hpp2 Hpp1). rewrite <- fkids_fget by exact Hpar. exact Hka. }
+  assert (Htb : t_move p par x ta = t_setk par' ((L ++ R) ++ [x]) U).
+  { unfold t_move. fold par'. fold U. rewrite <- (t_setk_id par' U _ HkU) at 1.
+    unfold t_append, t_setk. rewrite set_kids_set_kids, tkids_set_kids, fappend_fsetk_self. reflexivity. }
+  rewrite Htb.
+  destruct (mte_seq L R [x]) as [Hrun Hok].
+  replace ((L ++ R) ++ [x]) with (L ++ R ++ [x]) by (rewrite <- app_assoc; reflexivity).
+  destruct (rp_tail nr [] par' ltac:(unfold nr, nroots; rewrite (pr_two _ Hpr); cbn; lia)
+              (seq (length L) (length R)) U [D] (L ++ R ++ [x])
+              (map (fun j0 => (0 :: par) ++ [j0]) (seq (S i) (length R)))
+              (fun z => tk2 (tk1 z)) (tk2 (0 :: p)) (ex_intro _ P HPU)) as [rest' Hgo].
+  - rewrite app_assoc, map_app. cbn [map]. apply NoDup_app_snoc.
+    + rewrite map_app in Hnd. cbn [map] in Hnd. apply NoDup_remove_1 in Hnd. rewrite <- map_app in Hnd. exact Hnd.
+    + intros Hin. apply in_map_iff in Hin as [k [E Hk]]. apply (Hfresh k Hk). exact E.
+  - exact Hok.
+  - rewrite <- seq_shift, !map_map. apply map_ext_in. intros m Hm. apply in_seq in Hm.
+    change ((0 :: par) ++ [S m]) with (0 :: par ++ [S m]). unfold tk1.
+    rewrite (track_sibling0 par i [1] (S m)) by lia.
+    assert (E1 : adj_idx i (S m) = m).
+    { unfold adj_idx. replace (Nat.ltb i (S m)) with true by (symmetry; apply Nat.ltb_lt; lia). reflexivity. }
+    rewrite E1. unfold tk2. change (0 :: par ++ [m]) with (0 :: (par ++ [m])).
+    rewrite track_cons0; [|exact Hp|apply is_prefix_snoc_false; assumption].
+    rewrite adj'_app by assumption. reflexivity.
+  - exists rest'. cbn [app length] in Hgo. split; [|split; [rewrite HP; exact HPU|split; [exact HkU|exact Hxa]]].
+    match goal with |- ?lhs = _ => match type of Hgo with ?lhs' = _ => replace lhs with lhs' by reflexivity end end.
+    rewrite Hgo, Hrun. reflexivity.
+Qed.
+
+Theorem C08_replace_unrelated_stmt c t par p L D R x PQ PX :
+  plain_replace c -> wf_t t -> tpath t par = Some PQ -> par <> [] -> p <> [] ->
+  fkids par (tkids t) = Some (L ++ D :: R) -> tget t p = Some x -> tpath t p = Some PX ->
+  is_prefix par p = false -> is_prefix p par = false ->
+  (forall k, In k (L ++ R) -> tname k <> tname x) ->
+  let d := par ++ [length L] in
+  let U := t_remove p (t_remove d t) in
+  let t2 := t_setk (adj' p par) (L ++ x :: R) U in
+  (exists rest, rp_core c [t] (0 :: p) (0 :: d) = (t2 :: rest, None))
+  /\ rows U = minus (minus (rows t) (PQ ++ [tname D])) PX
+  /\ exists A B, rows U = A ++ frows PQ (L ++ R) ++ B
+                 /\ rows t2 = A ++ frows PQ L ++ rows_from PQ x ++ frows PQ R ++ B.
+Proof.
+  intros Hpr Hwf HPQ Hpar Hp Hks Hx HPX Hpp1 Hpp2 Hfresh d U t2.
+  assert (Hnd : NoDup (map tname (L ++ D :: R))) by (apply (wf_fkids par (tkids t) _ (wf_t_kids _ Hwf) Hks)).
+  destruct (replace_unrelated c t par p L D R x Hpr (ex_intro _ PQ HPQ) Hpar Hp Hks Hnd Hx Hpp1 Hpp2 Hfresh)
+    as [Hcore [HPU [HkU Hxa]]].
+  fold d in Hcore, HPU, HkU, Hxa. fold U in Hcore, HPU, HkU.
+  split; [exact Hcore|].
+  assert (Hd : d <> []) by (unfold d; destruct par; discriminate).
+  assert (HPD : tpath t d = Some (PQ ++ [tname D])) by (eapply fpath_snoc; [exact HPQ|exact Hks|apply nth_error_mid]).
+  assert (Hwfa : wf_t (t_remove d t)) by (apply wf_t_remove; exact Hwf).
+  assert (Hpd : is_prefix d p = false) by (apply is_prefix_child_false; left; exact Hpp1).
+  assert (HgD : tget t d = Some D) by (unfold tget; eapply fget_snoc; [exact Hks|apply nth_error_mid]).
+  assert (HPXa : tpath (t_remove d t) p = Some PX).
+  { unfold tpath, t_remove. rewrite tname_set_kids, tkids_set_kids.
+    rewrite <- (adj'_child_removed par p (length L) (or_introl Hpp1)). fold d.
+    unfold tget in HgD. rewrite (fpath_adj _ _ _ _ _ HgD Hpd). exact HPX. }
+  assert (HrU : rows U = minus (minus (rows t) (PQ ++ [tname D])) PX).
+  { unfold U. rewrite (rows_t_remove _ p PX Hwfa Hp HPXa), (rows_t_remove t d _ Hwf Hd HPD). reflexivity. }
+  split; [exact HrU|].
+  assert (HwfU : wf_t U) by (apply wf_t_remove; exact Hwfa).
+  rewrite HPQ in HPU.
+  destruct (rows_setk_ctx U (adj' p par) PQ HwfU HPU) as [A [B [H1 _]]].
+  exists A, B. split.
+  - rewrite <- (H1 (L ++ R)), (t_setk_id _ U _ HkU). reflexivity.
+  - unfold t2. rewrite H1, frows_app, frows_cons. rewrite <- !app_assoc. reflexivity.
 Qed.
